@@ -16,6 +16,8 @@ var pools = [][]uint{
 	{1 << 40, 1<<32 - 1, 1 << 31, 1000000000, 1000000, 1000, 7, 1},
 	// values p for which p*(1/p) != 1 in float64, and their halves' neighbours
 	{107, 103, 100, 98, 51, 49, 47, 2},
+	// priority 0 is a legal value: alone (the sum of the priorities is 0), and among others
+	{1 << 63, 9, 4, 1, 0},
 }
 
 // subsets of a descending pool, as descending lists
@@ -123,6 +125,7 @@ func checkDividers(quick bool) []*result {
 
 func checkDivider(s *shard, name string, prios []uint, dividend uint, kind initKind) {
 	s.evals++
+	s.mark("divider "+name+" (v2 and v1), dividend, initial distribution kind", prios, uint64(dividend), uint64(kind), 0, 0)
 	before := initial(kind, prios)
 	d2 := copyMap(before)
 	var v1res map[uint]uint
